@@ -181,8 +181,9 @@ func runC08(env *Env, tier string) {
 		// whatever the engine was about to send cannot be sent
 		if ch.Chance("storerefusal", 1, 12) {
 			fired := false
+			onlyInbound := ch.Chance("refuseinboundcounter", 1, 2) // ... or the write that counts an inbound message
 			s.E.SF.Fail = func(op string, n int) error {
-				if fired {
+				if fired || onlyInbound != (op == "IncrTarget") {
 					return nil
 				}
 				fired = true
